@@ -362,6 +362,22 @@ class Prop(PropBase):
             arr_r = Phase(np.array([a0, b0]), np.array([a1, b1]))
             is_phase(arr_r[1], B, "phase_array[1]", F(0))
             is_phase(list(arr_r)[0], A, "next(iter(phase_array))", F(0))
+            # factors / divisors that broadcast to a larger shape than the phase (extra axis, stretched length-1 axis)
+            for lab, res, wants in (
+                    ("phase(2,) * factor(3,1)", arr_r * np.array([[2.0], [0.5], [3.0]]), [[2 * A, 2 * B], [A / 2, B / 2], [3 * A, 3 * B]]),
+                    ("factor(2,1) * phase(2,)", np.array([[2.0], [4.0]]) * arr_r, [[2 * A, 2 * B], [4 * A, 4 * B]]),
+                    ("phase(1,) * factor(3,)", arr_r[:1] * np.array([1.0, 2.0, 4.0]), [A, 2 * A, 4 * A]),
+                    ("phase(2,) / divisor(2,1)", arr_r / np.array([[2.0], [4.0]]), [[A / 2, B / 2], [A / 4, B / 4]])):
+                w = np.array(wants, dtype=object)
+                if type(res) is not Phase or res.shape != w.shape:
+                    bad.append(f"{lab}: {type(res).__name__} of shape {getattr(res, 'shape', None)}")
+                    continue
+                rv = res.view(np.ndarray)
+                for idx in np.ndindex(w.shape):
+                    got = F(float(rv["int"][idx])) + F(float(rv["frac"][idx]))
+                    if abs(got - w[idx]) > F(1, 2**50) * max(1, abs(w[idx])):
+                        bad.append(f"{lab}: element {idx} off by {float(abs(got - w[idx])):.3g}")
+                        break
             raises(lambda: Phase(a0, 1j * b1), "Phase(real, imaginary)")
             raises(lambda: Phase(1j * a0, b1), "Phase(imaginary, real)")
             raises(lambda: Phase(b0 + 1j * b0), "Phase(mixed complex)")
